@@ -495,7 +495,8 @@ static int req_cb(struct urequest *urequest, va_list args)
      * arrives): re-require another request from inside the callback */
     if (s->action >= 0 && s->reg && !c->in_action && !c->ret) {
         struct slot *o = &c->slot[s->action];
-        if (o->inited && o != s && c->rn[o->at].held && c->rn[o->at].sideB == c->rn[s->at].sideB) {
+        /* o == s: the requester renegotiates its own request from its callback (what upipe_helper_ubuf_mgr / flow_format do when check re-requires) */
+        if (o->inited && c->rn[o->at].held && c->rn[o->at].sideB == c->rn[s->at].sideB) {
             c->in_action = true;
             c->cls |= 1u << CL_REENTRANT;
             R("         (callback re-requires slot%d)\n", o->id);
@@ -522,7 +523,7 @@ static void m_callback(struct ctx *c, int slot, int ans)
     struct slot *s = &c->slot[slot];
     if (s->action >= 0 && !c->m_in_action) {
         struct slot *o = &c->slot[s->action];
-        if (o->inited && o != s && c->rn[o->at].held && c->rn[o->at].sideB == c->rn[s->at].sideB) {
+        if (o->inited && c->rn[o->at].held && c->rn[o->at].sideB == c->rn[s->at].sideB) {
             c->m_in_action = true;
             m_slot_unregister(c, o->id);    /* no-op if the model has it unregistered */
             m_slot_register(c, o->id);
@@ -838,7 +839,7 @@ static void op_toggle(struct ctx *c)
         }
         int dictv = (b >> 3) % 3;
         int action = -1;
-        if (c->actions_enabled && (b >> 5) == 7) action = (s->id + 1 + (a >> 6)) % NSLOT;
+        if (c->actions_enabled && (b >> 5) == 7) action = (s->id + (a >> 6)) % NSLOT;      /* (a >> 6) == 0: itself */
         if (at > 0) c->cls |= 1u << CL_REGISTER_MID_CHAIN;
         for (int i = 0; i < NSLOT; i++) if (c->slot[i].reg && c->slot[i].type == type) c->cls |= 1u << CL_SAME_TYPE_TWICE;
         snprintf(what, sizeof what, "register slot%d (%s) at p%d", s->id, tname(type), at);
